@@ -34,6 +34,27 @@ class Universe:
         rm.reg_con(arr, self.table)
         self.classes[self.array_key] = arr
         self.tparams[self.array_key] = list(arr.type_parameters)
+        # every other builtin of the language is known by term (lookup only: the pools of the random legs are unchanged)
+        self.all_builtins = []
+        for ir in f.get_non_nothing_types():
+            if ir.is_type_constructor():
+                key = rm.con_key(ir)
+                if key not in self.classes:
+                    rm.reg_con(ir, self.table)
+                    self.classes[key] = ir
+                    self.tparams[key] = list(ir.type_parameters)
+                continue
+            if ir.is_parameterized():
+                key = rm.con_key(ir.t_constructor)
+                if key not in self.classes:
+                    rm.reg_con(ir.t_constructor, self.table)
+                    self.classes[key] = ir.t_constructor
+                    self.tparams[key] = list(ir.t_constructor.type_parameters)
+            if getattr(ir, 'primitive', False):
+                continue
+            t = rm.to_term(ir, self.table)
+            self.all_builtins.append((t, ir))
+            self.by_term.setdefault(t, ir)
 
     # ---- declarations
     def add_class(self, name, params=(), sup=None):
@@ -204,7 +225,7 @@ def universes(draw, lang, max_classes=6, max_params=3):
         for j in range(nparams):
             pn = ('T%d' % j) if reuse_names else ('%s%d' % (name, j))
             pv = draw(st.sampled_from(['inv', 'inv', 'out', 'in'])) if variant else 'inv'
-            kindb = draw(st.sampled_from(['none', 'none', 'ground', 'param', 'ptype']))
+            kindb = draw(st.sampled_from(['none', 'none', 'ground', 'param', 'ptype', 'nested']))
             pb = None
             if kindb == 'ground':
                 pb = draw(types(u, R, depth=1, scope={}, proj=False))
@@ -212,7 +233,19 @@ def universes(draw, lang, max_classes=6, max_params=3):
                 q = draw(st.sampled_from(params))
                 pb = ('v', q[0], q[2])
             elif kindb == 'ptype' and u.generics():
-                pb = draw(types(u, R, depth=1, scope=dict(scope), proj=False, force_generic=True))
+                # the bound may mention earlier parameters at any nesting depth (Bar<Foo<T0>>)
+                pb = draw(types(u, R, depth=draw(st.sampled_from([1, 1, 2])), scope=dict(scope), proj=False, force_generic=True))
+            elif kindb == 'nested' and params and u.generics():
+                # an earlier parameter mentioned at nesting depth 2: G1<.., G2<.., Q, ..>, ..>
+                q = draw(st.sampled_from(params))
+                inner = ('v', q[0], q[2])
+                for _ in range(2):
+                    g = draw(st.sampled_from(u.generics()))
+                    gp = u.table.cls[g]['params']
+                    pos = draw(st.integers(0, len(gp) - 1))
+                    fill = draw(st.sampled_from(u.ground_base()))
+                    inner = ('i', g, tuple(inner if i == pos else fill for i in range(len(gp))))
+                pb = inner if R.wf(inner) else None
             if pb is not None and (rm.is_proj(pb) or pb == rm.BOT):
                 pb = None
             # a variant parameter must not be used in another parameter's bound in a conflicting way:
@@ -329,7 +362,7 @@ def types(draw, u, R, depth=2, scope=None, proj=True, star=True, force_generic=F
 
 
 # ------------------------------------------------------------------ fixed tables
-def fixed_universes(lang):
+def fixed_universes(lang, with_chains=False):
     """Small hand-made tables covering the shapes the subtyping rules
     distinguish (C06 exhaustive part)."""
     V = lambda n, b=None: ('v', n, b)
@@ -359,6 +392,16 @@ def fixed_universes(lang):
     u.add_class('P', [('K', 'inv', None), ('L', 'inv', None)])
     u.add_class('Q', [('M', 'inv', None)], I('P', V('M'), ('c', 'X')))
     out.append(('bounded-two-params', u))
+    # T3: three-level chains that permute / nest their parameters (same and different parameter names); used by the
+    # variables-through-the-hierarchy part only (its depth-2 pool would be too large for the all-pairs part)
+    u = mk()
+    u.add_class('A', [('H', 'inv', None), ('G', 'inv', None)])
+    u.add_class('B', [('H', 'inv', None), ('G', 'inv', None)], I('A', V('G'), V('H')))
+    u.add_class('C', [('H', 'inv', None), ('G', 'inv', None)], I('B', V('G'), V('H')))
+    u.add_class('N', [('N0', 'inv', None)], I('C', V('N0'), I('A', V('N0'), V('N0'))))
+    u.add_class('M', [('M0', 'inv', None), ('M1', 'inv', None)], I('N', I('B', V('M1'), V('M0'))))
+    if with_chains:
+        out.append(('chain-permuting', u))
     if variant:
         u = mk()
         u.add_class('X')
